@@ -842,3 +842,112 @@ def upvar_parent_leaves(prog, g, leaf, through_calls=False):
             if pl_ is not None:
                 out += backward_slice(par, [pl_[0]], through_calls=through_calls)[1]
     return out
+
+
+def cp_walk(fn, start, env=None, avoid=()):
+    """conditional constant propagation from block `start`: values are integers or aggregates ('agg', variant index,
+    fields) built from such values; copies, field / downcast projections of known aggregates, `discriminant(x)` of a known
+    aggregate and `Not` are evaluated, a switch on a known value follows its edge only, environments meet at joins (a
+    value survives only if every walked path agrees).  Returns {block: environment after the block's statements}."""
+    avoid = set(avoid)
+    if start in avoid:
+        return {}
+    taken = {s_["rv"]["p"][0] for _, _, s_ in fn.assigns() if s_["rv"]["k"] in ("ref", "rawptr") and s_["rv"].get("mut")}
+
+    def val_op(e, o):
+        if o["k"] == "const":
+            return int(o["int"]) if o.get("int") is not None else None
+        pl = op_place(o)
+        if pl is None or pl[0] not in e:
+            return None
+        v = e[pl[0]]
+        for pr in pl[1]:
+            if isinstance(pr, list) and pr[0] == "." and isinstance(v, tuple) and v[0] == "agg" and pr[1] < len(v[2]):
+                v = v[2][pr[1]]
+            elif isinstance(pr, list) and pr[0] == "as":
+                continue
+            else:
+                return None
+        return v
+
+    ins = {start: dict(env or {})}
+    outs = {}
+    work = [start]
+    while work:
+        b = work.pop()
+        e = dict(ins[b])
+        for s in fn.blocks[b]["stmts"]:
+            if s["k"] != "assign":
+                continue
+            l, proj = s["lhs"][0], s["lhs"][1]
+            if proj:
+                if "*" in proj:
+                    e = {k: v for k, v in e.items() if k not in taken}
+                else:
+                    e.pop(l, None)
+                continue
+            rv = s["rv"]
+            v = None
+            if rv["k"] == "use":
+                v = val_op(e, rv["op"])
+            elif rv["k"] == "cast" and rv.get("ck") in ("IntToInt", "PointerCoercion", "Transmute") and op_local(rv["op"]) is None and rv["op"]["k"] == "const":
+                v = val_op(e, rv["op"])
+            elif rv["k"] == "unop" and rv["op"] == "Not":
+                x = val_op(e, rv["a"])
+                v = 1 - x if x in (0, 1) else None
+            elif rv["k"] == "agg" and rv.get("ak") in ("adt", "tuple", None) and "f" in rv:
+                v = ("agg", int(rv.get("vidx", 0)), tuple(val_op(e, o) for o in rv["f"]))
+            elif rv["k"] == "discr" and not rv["p"][1] and isinstance(e.get(rv["p"][0]), tuple):
+                v = e[rv["p"][0]][1]
+            if v is None or l in taken:
+                e.pop(l, None)
+            else:
+                e[l] = v
+        outs[b] = dict(e)
+        t = fn.blocks[b]["term"]
+        succ = fn.succs(b)
+        if t["k"] == "switch":
+            x = val_op(e, t["discr"])
+            if isinstance(x, int):
+                tgt = None
+                for val, tg in t["targets"]:
+                    if int(val) == x:
+                        tgt = tg
+                succ = [tgt if tgt is not None else t["otherwise"]]
+        elif t["k"] in ("call", "tailcall") and "dest" in t:
+            if t["dest"][1]:
+                e = {k: v for k, v in e.items() if k not in taken}
+            else:
+                e.pop(t["dest"][0], None)
+            e = {k: v for k, v in e.items() if k not in taken}
+        for s2 in succ:
+            if s2 in avoid:
+                continue
+            if s2 not in ins:
+                ins[s2] = dict(e)
+                work.append(s2)
+            else:
+                old = ins[s2]
+                new = {k: v for k, v in old.items() if k in e and e[k] == v}
+                if new != old:
+                    ins[s2] = new
+                    work.append(s2)
+    return outs
+
+
+def cp_value(fn, env, o):
+    """value of an operand under a cp_walk environment (None if unknown)"""
+    if o["k"] == "const":
+        return int(o["int"]) if o.get("int") is not None else None
+    pl = op_place(o)
+    if pl is None or pl[0] not in env:
+        return None
+    v = env[pl[0]]
+    for pr in pl[1]:
+        if isinstance(pr, list) and pr[0] == "." and isinstance(v, tuple) and v[0] == "agg" and pr[1] < len(v[2]):
+            v = v[2][pr[1]]
+        elif isinstance(pr, list) and pr[0] == "as":
+            continue
+        else:
+            return None
+    return v
